@@ -284,12 +284,22 @@ impl<const H: usize> Writer<H> {
         let length_bytes = length_with_flag.to_le_bytes();
         let crc = calculate_crc32c(&length_bytes, header, &final_data);
 
+        #[cfg(feature = "verif")]
+        if crate::verif::fail_point("seglog:append:io", offset, total_record_len as u64) {
+            return Err(io::Error::other("verif: injected append failure").into());
+        }
         self.writer.write_all(&length_bytes)?;
         self.writer.write_all(&crc.to_le_bytes())?;
         self.writer.write_all(header)?;
+        #[cfg(feature = "verif")]
+        if crate::verif::fail_point("seglog:append:io:mid", offset, total_record_len as u64) {
+            return Err(io::Error::other("verif: injected append failure (mid record)").into());
+        }
         self.writer.write_all(&final_data)?;
 
         self.write_offset += total_record_len as u64;
+        #[cfg(feature = "verif")]
+        crate::verif::point("seglog:appended", offset, total_record_len as u64);
 
         Ok((offset, total_record_len))
     }
@@ -318,11 +328,15 @@ impl<const H: usize> Writer<H> {
 
         self.flushed_offset.set(offset);
         self.write_offset = offset;
+        #[cfg(feature = "verif")]
+        crate::verif::point("seglog:set_len:lowered", crate::verif::fd_of(self.writer.get_ref()), offset);
 
         // Write full zero header as clear truncation marker
         let zero_header = [0u8; RECORD_HEAD_SIZE];
         self.writer.get_ref().write_all_at(&zero_header, offset)?;
         self.writer.get_ref().sync_data()?;
+        #[cfg(feature = "verif")]
+        crate::verif::point("fsync", crate::verif::fd_of(self.writer.get_ref()), offset);
 
         Ok(())
     }
@@ -341,7 +355,11 @@ impl<const H: usize> Writer<H> {
             trace!("flushing writer");
             self.writer.flush()?;
             self.writer.get_ref().sync_data()?;
+            #[cfg(feature = "verif")]
+            crate::verif::point("fsync", crate::verif::fd_of(self.writer.get_ref()), self.write_offset);
             self.flushed_offset.set(self.write_offset);
+            #[cfg(feature = "verif")]
+            crate::verif::point("seglog:sync:raised", crate::verif::fd_of(self.writer.get_ref()), self.write_offset);
             self.dirty = false;
         }
 
